@@ -69,8 +69,26 @@ static bool nontrivial(const std::string &prop, std::map<std::string, long> &c) 
 
 static void write_file(const std::string &p, const std::string &t) { std::ofstream f(p); f << t; }
 
+// C19, process shutdown: API calls made from an atexit handler that the application registered BEFORE its first MASA call (a "final report"
+// hook) run while the registries must still be alive. The handler below walks both registries the way such a hook would.
+static bool g_live[2] = {false, false};
+template <class Scalar> static void final_report_t() { using namespace MASA; int P = sizeof(Scalar) > 8; if (!g_live[P]) return;
+  masa_list_mms<Scalar>(); std::string nm; masa_get_name<Scalar>(&nm); masa_display_param<Scalar>(); (void)masa_sanity_check<Scalar>(); int d = 0; masa_get_dimension<Scalar>(&d);
+  Scalar a[4] = {(Scalar)0.3, (Scalar)0.4, (Scalar)0.5, (Scalar)0.6}; for (auto &e : api_table<Scalar>()) { std::string sig = e.sig; if (sig.find('F') != std::string::npos) continue; (void)e.fn(a, 1, nullptr); }
+  masa_init<Scalar>("registered at exit", "euler_1d"); (void)masa_eval_source_rho_u<Scalar>((Scalar)0.25); }
+static void final_report() { try { final_report_t<double>(); final_report_t<long double>(); } catch (int) {} catch (...) {} }
+
 int main(int argc, char **argv) {
   if (!freopen("/dev/null", "w", stdout)) {}
+  if (const char *rf = arg_value(argc, argv, "--at-exit")) {   // nothing of the library has run yet: the handler is registered first
+    (void)api_table<double>().size(); (void)api_table<long double>().size(); (void)capi_table().size();   // the harness's own function-local tables must outlive the handler: built first (they call nothing)
+    atexit(final_report);
+    std::ifstream f(rf); std::stringstream ss; ss << f.rdbuf(); std::vector<Op> ops; std::string prop; if (!history_from_text(ss.str(), ops, prop)) { fprintf(stderr, "not a history file\n"); return 2; }
+    History H; H.cfg.catalogue = catalogue_for("C19", profile_for("C19"), 0); H.cfg.check_fresh = false; H.cfg.audit_every_step = false; H.cfg.c_interface = true; H.cfg.fatal_mode = 0;
+    try { H.run(ops); } catch (int) {} catch (...) {}
+    for (int P = 0; P < 2; P++) g_live[P] = H.reg[P].has_selected;
+    fprintf(stderr, "history of %zu steps executed; leaving main with %zu + %zu live handles\n", ops.size(), H.reg[0].handles.size(), H.reg[1].handles.size());
+    return 0; }       // no reset: the registries stay populated until the process ends
   if (const char *rf = arg_value(argc, argv, "--replay")) { std::ifstream f(rf); std::stringstream ss; ss << f.rdbuf(); std::vector<Op> ops; std::string prop; if (!history_from_text(ss.str(), ops, prop)) { fprintf(stderr, "not a history file\n"); return 2; }
     bool enumfile = prop.size() > 5 && prop.substr(prop.size() - 5) == "-enum"; if (enumfile) prop = prop.substr(0, prop.size() - 5);
     Profile pf = profile_for(prop); History H; int fm = atoi(arg_value(argc, argv, "--fatal-mode", "0")); H.cfg.catalogue = enumfile ? read_catalogue() : catalogue_for(prop, pf, fm); if (enumfile) pf.fresh = false;
